@@ -33,6 +33,9 @@ type Solver struct {
 	LastError string
 	Trace    io.Writer
 	argv     []string
+	timeout  time.Duration
+	Killed   int
+	Restarted bool // set when the process was replaced; cleared by Reset
 	depth    int
 	declLog  [][]string // declared names per push level
 }
@@ -50,7 +53,7 @@ func NewSolver(kind string, timeoutMs int) (*Solver, error) {
 	default:
 		return nil, fmt.Errorf("unknown solver %q", kind)
 	}
-	s := &Solver{Name: kind, argv: argv}
+	s := &Solver{Name: kind, argv: argv, timeout: time.Duration(timeoutMs)*time.Millisecond + 3*time.Second}
 	if err := s.start(); err != nil {
 		return nil, err
 	}
@@ -102,6 +105,7 @@ func (s *Solver) send(line string) {
 
 // Reset drops all assertions and declarations.
 func (s *Solver) Reset() {
+	s.Restarted = false
 	if s.Name == "cvc5" {
 		// cvc5 1.0 supports (reset) but loses options; restart options
 		s.send("(reset)")
@@ -159,13 +163,20 @@ func (s *Solver) Check() Result {
 	s.send("(check-sat)")
 	r := Unknown
 	sawError := false
+	// hard watchdog: the solver's own soft timeout is not always honoured
+	proc := s.cmd.Process
+	wd := time.AfterFunc(s.timeout, func() { proc.Kill() })
+	defer wd.Stop()
 	for {
 		l, err := s.readLine()
 		if err != nil {
 			s.Errors++
-			// solver died: restart so that later queries work; this one is unknown
+			// solver died or was killed by the watchdog: restart so that later
+			// queries work; this one is unknown.  The caller must Reset and re-assert.
+			s.Killed++
 			s.Close()
 			s.start()
+			s.Restarted = true
 			sawError = true
 			break
 		}
